@@ -42,7 +42,7 @@ def impl_cli_from_payloads(eb, slots, d):
     out = os.path.join(d, "cache.bin")
     common.make_stale(out)
     try:
-        mod.main(cache_create_subcommand="from_payloads", eb_size=eb, input=inputs, output_file=out)
+        common.call_main(mod.main, d, cache_create_subcommand="from_payloads", eb_size=eb, input=inputs, output_file=out)
         with open(out, "rb") as fh:
             return {"ok": fh.read().hex()}
     except Exception as e:  # noqa
@@ -68,7 +68,7 @@ def impl_merge(eb, files, d):
     else:
         common.make_stale(out)
     try:
-        mod.main(cache_create_subcommand="merge", eb_size=eb, input=paths, output_file=out)
+        common.call_main(mod.main, d, cache_create_subcommand="merge", eb_size=eb, input=paths, output_file=out)
         with open(out, "rb") as fh:
             return {"ok": fh.read().hex()}
     except Exception as e:  # noqa
